@@ -15,7 +15,7 @@ import (
 )
 
 // 2006-01-02T15:04:05.000Z07:00
-const defaultFormatTimeLayout = "[Y]-[M01]-[D01]T[H01]:[m]:[s].[f001][Z01:01t]"
+const defaultFormatTimeLayout = "[Y0001]-[M01]-[D01]T[H01]:[m]:[s].[f001][Z01:01t]"
 
 var defaultParseTimeLayouts = []string{
 	"[Y]-[M01]-[D01]T[H01]:[m]:[s][Z01:01t]",
